@@ -1000,13 +1000,17 @@ func (p *Process) getHealth() string {
 func (p *Process) setHealth(health string) {
 	defer p.stateMtx.Unlock()
 	p.stateMtx.Lock()
+	if p.superseded.Load() {
+		// the (shared) state belongs to a newer instance
+		return
+	}
 	p.procState.Health = health
 }
 
 func (p *Process) compareAndSetHealth(from, to string) bool {
 	defer p.stateMtx.Unlock()
 	p.stateMtx.Lock()
-	if p.procState.Health != from {
+	if p.superseded.Load() || p.procState.Health != from {
 		return false
 	}
 	p.procState.Health = to
